@@ -539,58 +539,51 @@ func compareScenario(st *scenState) {
 	}
 
 	// B's own dump against D
-	tB := time.Now().Unix()
 	codeB, DB := B.dump()
+	tB := time.Now().Unix() // B dumps everything it holds that ends at or after the instant of its dump (<= tB)
 	if codeB != 200 {
 		rep.Violation("dump-failed", fmt.Sprintf("%s: GET /dump of the reloaded cache answered %d", sc.Name, codeB), rc)
 	} else if ddB, err := decodeDump(DB); err != nil {
 		rep.Violation("dump-undecodable", fmt.Sprintf("%s: dump of the reloaded cache: %v", sc.Name, err), rc)
 	} else {
-		filter := func(es []dumpEntry) map[string]int {
-			var keep []dumpEntry
-			for _, e := range es {
-				if e.CacheExp > tB+3 {
-					keep = append(keep, e)
-				}
-			}
-			return tupleSet(keep)
+		sa, sb := tupleSet(dd.Entries), tupleSet(ddB.Entries)
+		bk := map[string]*dumpEntry{}
+		for i := range ddB.Entries {
+			bk[string(ddB.Entries[i].Key)] = &ddB.Entries[i]
 		}
-		sa, sb := filter(dd.Entries), filter(ddB.Entries)
-		rep.Count("redump_entries_compared", int64(len(sa)))
-		missing, extra := 0, 0
-		for k := range sa {
-			if sb[k] == 0 {
-				missing++
+		missing, extra, compared := 0, 0, 0
+		what := ""
+		for i := range dd.Entries {
+			e := &dd.Entries[i]
+			if e.CacheExp <= tB+1 {
+				continue // may have run out between the two dumps
 			}
-		}
-		for k := range sb {
-			if sa[k] == 0 {
-				extra++
+			compared++
+			if sb[tupleOf(*e)] > 0 {
+				continue
 			}
-		}
-		if missing+extra > 0 {
-			// describe the first difference by key
-			what := ""
-			bk := map[string]*dumpEntry{}
-			for i := range ddB.Entries {
-				bk[string(ddB.Entries[i].Key)] = &ddB.Entries[i]
-			}
-			for i := range dd.Entries {
-				e := &dd.Entries[i]
-				if e.CacheExp <= tB+3 {
-					continue
-				}
-				o := bk[string(e.Key)]
+			missing++
+			if what == "" {
 				qk, _ := questionKey(e.Msg)
-				if o == nil {
+				if o := bk[string(e.Key)]; o == nil {
 					what = fmt.Sprintf("%s is in D but not in the reloaded cache's dump", qk)
-					break
-				}
-				if tupleOf(*e) != tupleOf(*o) {
+				} else {
 					what = fmt.Sprintf("%s: D has (cache_exp=%d msg_exp=%d stored=%d msg %dB), reloaded cache dumps (cache_exp=%d msg_exp=%d stored=%d msg %dB)", qk, e.CacheExp, e.MsgExp, e.Stored, len(e.Msg), o.CacheExp, o.MsgExp, o.Stored, len(o.Msg))
-					break
 				}
 			}
+		}
+		for i := range ddB.Entries {
+			e := &ddB.Entries[i]
+			if sa[tupleOf(*e)] == 0 {
+				extra++
+				if what == "" {
+					qk, _ := questionKey(e.Msg)
+					what = fmt.Sprintf("%s (cache_exp=%d msg_exp=%d stored=%d) is dumped by the reloaded cache but is not in D", qk, e.CacheExp, e.MsgExp, e.Stored)
+				}
+			}
+		}
+		rep.Count("redump_entries_compared", int64(compared))
+		if missing+extra > 0 {
 			rep.Violation("redump-differs", fmt.Sprintf("%s: dump of the reloaded cache differs from D in %d missing / %d extra entries; first: %s", sc.Name, missing, extra, what), rc)
 		}
 	}
@@ -643,6 +636,10 @@ func compareScenario(st *scenState) {
 			obs.TTLB = ttlVector(rb)
 		}
 		w := map[string]any{"phase": "fidelity", "scenario": sc, "observed": &obs}
+		if s.Group == "dead" && ca != "miss" {
+			rep.Violation("expired-entry-served-after-load", fmt.Sprintf("%s: %s was loaded from a dump with cache expiry %d (in the past at load time %d); the cache that loaded it answers %q", sc.Name, s.Q.Name, s.CacheExp, st.nowS, ca), w)
+			continue
+		}
 		if ca != cb {
 			rep.Violation("reload-class-differs-"+ca+"-"+cb, fmt.Sprintf("%s: %s (%s/%s): original cache answers %q, reloaded cache answers %q", sc.Name, s.Q.Name, s.Via, s.Group, ca, cb), w)
 			continue
@@ -725,7 +722,7 @@ func scenarios(seed int64, thorough bool) []scenario {
 		{Name: "empty", TruncDump: true},
 		{Name: "one", NExec: 1, TruncDump: true},
 		{Name: "mixed-lazy-300", Lazy: 86400, NExec: 150, NInject: 150, BlockSizes: []int{1, 7, 128, 200}, TruncDump: true},
-		{Name: "mixed-nolazy-200", NExec: 120, NInject: 80, BlockSizes: []int{128}, TruncDump: thorough},
+		{Name: "mixed-nolazy-200", NExec: 120, NInject: 80, BlockSizes: []int{128}, TruncDump: true},
 		{Name: "file-restart-120", Lazy: 3600, NExec: 60, NInject: 60, ViaFile: true, BlockSizes: []int{50}},
 		{Name: "file-restart-exec-only", NExec: 40, ViaFile: true},
 		{Name: "big-answers-130x9k", NExec: 130, Big: 9000},
